@@ -865,7 +865,10 @@ func run(c *mon.Ctx) {
 		}
 	}
 	// top-level scalars directly followed by a comment (F-C03-sentopcomment), and the same inside containers
-	for i, t := range []string{"37//", "1.5// c\n", "37/*c*/", "-1//", "[37// c\n]", "{a:37// c\n}", "[37/*c*/ 2]"} {
+	// ... and documents whose first byte is 0xEF without being a BOM: a bare token that starts with a character
+	// from U+F000..U+FFFF
+	for i, t := range []string{"37//", "1.5// c\n", "37/*c*/", "-1//", "[37// c\n]", "{a:37// c\n}", "[37/*c*/ 2]",
+		"\uff46oo", "\uff46oo\n", "\uf000x 1", "\ufffdab", "\uff46", "\uffe5:1", "\uff46oo [1]"} {
 		if c.Mine(i) {
 			input([]byte(t), "sen-fixed", []string{"linecomment"}, false)
 		}
